@@ -233,6 +233,10 @@ func genGraph(r rng, seed uint64, id, family string, k Knobs) *sdl.Program {
 			}
 		}
 		t.HasKind = r.p(0.3)
+		if r.p(0.1) {
+			t.Logger = true
+			t.LogEmbed = embedChain(r, k.PEmbed)
+		}
 		p.Types = append(p.Types, t)
 	}
 	// instances
@@ -463,6 +467,9 @@ func genPoint(r rng, p *sdl.Program, holder *sdl.Type, k Knobs, field string) *s
 			pt.Returns = []string{pick(r, kindVals)}
 			if r.p(0.3) {
 				pt.Returns = []string{"ka", "kb"}
+			}
+			if r.p(0.15) {
+				pt.Returns = []string{"*"}
 			}
 		} else {
 			pt.Name = pick(r, funcVals)
